@@ -57,7 +57,7 @@ pub fn check(c: &Case, ctx: &mut Ctx) -> Result<(), Failure> {
         for _ in 0..*len {
             let bar = gen.bar();
             crate::tele::step(&mut a, &c.cfg);
-            if scalar {
+            if scalar || (k.scalar() && crate::tele::scalar_here()) {
                 a.next_scalar(bar.c);
             } else {
                 a.next_bar(&bar);
@@ -70,7 +70,7 @@ pub fn check(c: &Case, ctx: &mut Ctx) -> Result<(), Failure> {
         fp.f(bar.h);
         fp.f(bar.v);
         crate::tele::step(&mut a, &c.cfg);
-        if scalar {
+        if scalar || (k.scalar() && crate::tele::scalar_here()) {
             a.next_scalar(bar.c);
         } else {
             a.next_bar(bar);
@@ -86,7 +86,9 @@ pub fn check(c: &Case, ctx: &mut Ctx) -> Result<(), Failure> {
         fp.f(bar.h);
         fp.f(bar.v);
         crate::tele::step(&mut a, &c.cfg);
-        let (oa, ob) = if scalar { (a.next_scalar(bar.c), b.next_scalar(bar.c)) } else { (a.next_bar(bar), b.next_bar(bar)) };
+        // mixed use of both paths (tele.rs): the same path for both twins at each suffix step
+        let sc = scalar || (k.scalar() && crate::tele::scalar_here());
+        let (oa, ob) = if sc { (a.next_scalar(bar.c), b.next_scalar(bar.c)) } else { (a.next_bar(bar), b.next_bar(bar)) };
         track(bar, &mut big, &mut flow_big, &mut prev);
         bhist.push(*bar);
         bclose.push(bar.c);
@@ -222,6 +224,27 @@ fn strategy() -> BoxedStrategy<Case> {
                 }
             }
             Case { cfg, scalar, prefix, suffix: suf.bars, gen_prefix: None }
+        })
+        // the statistics that are defined for any sign (not the ratios of positive prices) also on histories below
+        // zero or crossing it: prefix and/or suffix mirrored
+        .prop_flat_map(|c| (Just(c), 0usize..8))
+        .prop_map(|(mut c, neg)| {
+            if neg < 3 && matches!(c.cfg.kind, Kind::Sma | Kind::Wma | Kind::Sd | Kind::Mad | Kind::Min | Kind::Max | Kind::Bb | Kind::FastStoch) {
+                let flip = |b: &mut RawBar| {
+                    let (h, l) = (-b.l, -b.h);
+                    b.h = h;
+                    b.l = l;
+                    b.c = -b.c;
+                    b.o = -b.o;
+                };
+                if neg != 1 {
+                    c.prefix.iter_mut().for_each(flip);
+                }
+                if neg != 0 {
+                    c.suffix.iter_mut().for_each(flip);
+                }
+            }
+            c
         })
         .boxed()
 }
